@@ -151,6 +151,10 @@ def c01(tier):
     out.append(T("substr_ds_default_len", paramop("substr", ["DS_S"], [2, optional()]), n))
     out.append(T("calc_substr", calc("DS_X", [(None, "Me_9", paramop("substr", ["Me_4"], [1, 1]))]), n))
     out.append(T("calc_substr_concat", calc("DS_X", [(None, "Me_9", binop("||", paramop("substr", ["Me_4"], [2]), "Me_4"))]), n))
+    out.append(T("instr_ds", paramop("instr", ["DS_S"], [const("a")]), n))
+    out.append(T("instr_ds_start2", paramop("instr", ["DS_S"], [const("a"), 2]), n))
+    out.append(T("instr_ds_start3_pat2", paramop("instr", ["DS_S"], [const("ab"), 3, 1]), n, opts={"str_maxlen": 4}))
+    out.append(T("calc_instr_start2", calc("DS_X", [(None, "Me_9", paramop("instr", ["Me_4"], [const("b"), 2]))]), n))
     out.append(T("replace_ds", paramop("replace", ["DS_S"], [const("a"), const("b")]), n))
     out.append(T("replace_ds_default", paramop("replace", ["DS_S"], [const("a")]), n))
     out.append(T("calc_replace_comp", calc("DS_X", [(None, "Me_9", paramop("replace", ["Me_4"], [const("a"), "Id_2"]))]), n))
